@@ -25,7 +25,7 @@ Jump ==
     /\ Ev.w >= now
     /\ now' = Ev.w
     /\ phase' = "act"
-    /\ UNCHANGED <<lastW, ub, totalWait, sched, pc, dead, wake, seen, pend, hist, waits, last, tid, l, viol>>
+    /\ UNCHANGED <<lastW, ub, totalWait, sched, pc, dead, failAt, wake, seen, pend, hist, waits, last, tid, l, viol>>
 
 \* windows ending at the newest history entry (earlier ones were checked before)
 WindowNew ==
